@@ -49,9 +49,10 @@ def run_S9(chk):
     the mode that selects the same eigenvalues: LM -> LM, SM -> SM, LR -> LA (largest algebraic), SR -> SA; in particular two different
     requests never share a mode."""
     prog = chk.prog
-    chk.rule("S9", "translation tables of `which` for the Hermitian ARPACK driver map LM/SM/LR/SR to LM/SM/LA/SA", floor=1)
+    chk.rule("S9", "translation tables of `which` for the Hermitian ARPACK driver map LM/SM/LR/SR to LM/SM/LA/SA", floor=0)
     want = {"LM": "LM", "SM": "SM", "LR": "LA", "SR": "SA"}
     m = prog.modules["yastn.backend.backend_np"]
+    seen_ = 0
     for f in prog.all_funcs():
         if f.module is not m:
             continue
@@ -59,6 +60,7 @@ def run_S9(chk):
             if isinstance(n, ast.Dict) and len(n.keys) >= 2 and all(isinstance(k, ast.Constant) and k.value in want for k in n.keys) \
                     and all(isinstance(v, ast.Constant) and isinstance(v.value, str) for v in n.values):
                 got = {k.value: v.value for k, v in zip(n.keys, n.values)}
+                seen_ += 1
                 usesh = "eigsh" in A.text(f.node)
                 wrong = {k: v for k, v in got.items() if v != want[k]} if usesh else \
                     ({k: v for k, v in got.items() if list(got.values()).count(v) > 1})
@@ -67,6 +69,9 @@ def run_S9(chk):
                             f" (expected {', '.join(k + ' -> ' + want[k] for k in sorted(wrong))}): the driver is asked for other eigenvalues than "
                             f"the option names (e.g. the largest magnitudes instead of the largest algebraic ones, which differ as soon as the "
                             f"spectrum has large negative values); sorting the returned values afterwards cannot bring back what was not computed")
+
+    if not seen_:
+        chk.note("S9: no literal `which` translation table in backend_np (other spelling): not decided")
 
 
 def run_S8(chk):
